@@ -76,6 +76,7 @@ class PoolWorld(object):
         self.checks = [0]
         self.phase = ['run']
         self.hold_handshake = [False]
+        self.hold_init_of = [None]      # address of a node whose pool-init connections are stuck in their set-up
         self.held_handshakes = []
         self.direct_events = []
         self.replace_log = []
@@ -138,7 +139,8 @@ class PoolWorld(object):
     # ------------------------------------------------------------------ node side
     def behaviour(self, node, cstate, req):
         setup = req['op'] in ('OPTIONS', 'STARTUP') or (req['op'] == 'QUERY' and req['query'].lstrip().upper().startswith('USE '))
-        if setup and self.hold_handshake[0] and cstate.conn.sim_creator in ('pool-replace', 'pool-grow'):
+        if setup and ((self.hold_handshake[0] and cstate.conn.sim_creator in ('pool-replace', 'pool-grow')) or
+                      (self.hold_init_of[0] == node.address and cstate.conn.sim_creator == 'pool-init')):
             r = node.default_reaction(cstate, req)
             self.held_handshakes.append((cstate, req, r))
             return ('silence',)
